@@ -333,3 +333,67 @@ Proof. vm_compute. reflexivity. Qed.
 (* a chunk file left out: the argmin silently ranges over the plates that were scored *)
 Example C06_example_missing_chunk : pipeline ex_scorer None ex_screen [1] 3 [0; 2] = Ok (Some 4).
 Proof. vm_compute. reflexivity. Qed.
+
+(* ---- the command-line wrappers select_next_plate.main and calculate_scores.main is what the source says NOW ----
+   `src_cli_select_next_plate` / `src_cli_calculate_scores` are the whole functions main of /repo's current
+   batchie/cli/select_next_plate.py / calculate_scores.py, re-translated on every run (configurations CLI_SELECT_NEXT_PLATE /
+   CLI_CALCULATE_SCORES of harness/src_functions.py -> Generated/SrcCli.v).
+   Model/Cli.v: the parsed arguments are a record of the plain argparse results (get_args() is not translated), `L` is a
+   record of the library functions the wrapper calls over abstract types (each component stands for the library function
+   of that name with its parameter list; `*_load_*` = what loading the file at a path yields), a main() denotes the list
+   of (path, content) files it writes, Err = the exception that ends it.  The links hold for EVERY such record. *)
+From Batchie Require Lib.PyRt Model.Cli Generated.SrcCli Proofs.C06SourceCli Proofs.C06SourceCliScores.
+Theorem C06_model_is_source_cli_select_next_plate : forall (Scr Pl Po H : Type) (L : Cli.sn_lib Scr Pl Po H) (mix : Z -> Z) (a : Cli.sn_args),
+  SrcCli.src_cli_select_next_plate Scr Pl Po H L mix a
+  = Cli.cli_select_next_plate L mix a.
+Proof. exact C06SourceCli.src_cli_select_next_plate_is_model. Qed.
+Print Assumptions C06_model_is_source_cli_select_next_plate.
+
+Theorem C06_model_is_source_cli_calculate_scores : forall (Scr Pl Th Dm Sc H : Type) (L : Cli.cs_lib Scr Pl Th Dm Sc H) (mix : Z -> Z) (a : Cli.cs_args),
+  SrcCli.src_cli_calculate_scores Scr Pl Th Dm Sc H L mix a
+  = Cli.cli_calculate_scores L mix a.
+Proof. exact C06SourceCli.src_cli_calculate_scores_is_model. Qed.
+Print Assumptions C06_model_is_source_cli_calculate_scores.
+
+(* instances over this property's vocabulary (Model/Scores.v), with the library calls standing for the TRANSLATED library
+   functions (Generated/SrcScoring.v): select_next_plate.main = select_next on the concatenation (h_concat) of the loaded
+   score files, in argument order, with the --batch-plate-id list; it writes the chosen plate's id, or -1 exactly when
+   select_next answers None.  calculate_scores.main = score_chunk on the loaded screen with the --batch-plate-ids list,
+   the scorer answering on the concatenated thetas / distance matrix and the generator derived from --seed, its answer
+   stored by chunk_holder_of_answer, saved. *)
+Theorem C06_model_is_source_cli_select_next_plate_scores : forall load_screen mk_policy load_scores (mix : Z -> Z) (a : Cli.sn_args),
+  SrcCli.src_cli_select_next_plate _ _ _ _ (C06SourceCliScores.sn_scores_lib load_screen mk_policy load_scores) mix a
+  = dor s <- load_screen (Cli.sn_data a);
+    dor policy <- match Cli.sn_policy a with Some _ => dor p <- mk_policy; Ok (Some p) | None => Ok None end;
+    dor rng <- Cli.prng_of_seed mix (Cli.sn_seed a);
+    dor hs <- res_map_all load_scores (Cli.sn_scores a);
+    dor h <- h_concat hs;
+    dor r <- select_next (option_map (fun p => p (Some rng)) policy) s (Cli.sn_batch_plate_id a) h;
+    Ok [(Cli.sn_output a, match r with Some id => id | None => -1 end)].
+Proof. exact C06SourceCliScores.src_cli_select_next_plate_scores. Qed.
+Print Assumptions C06_model_is_source_cli_select_next_plate_scores.
+
+Theorem C06_model_is_source_cli_calculate_scores_scores : forall (Th Dm : Type) load_screen mk_scorer load_thetas concat_thetas
+    load_dist concat_dist (mix : Z -> Z) (a : Cli.cs_args),
+  SrcCli.src_cli_calculate_scores _ _ _ _ _ _
+    (C06SourceCliScores.cs_scores_lib Th Dm load_screen mk_scorer load_thetas concat_thetas load_dist concat_dist) mix a
+  = dor s <- load_screen (Cli.cs_data a);
+    dor sc <- mk_scorer;
+    dor ths <- res_map_all load_thetas (Cli.cs_thetas a);
+    dor th <- concat_thetas ths;
+    dor dms <- res_map_all load_dist (Cli.cs_distance_matrix a);
+    dor dm <- concat_dist dms;
+    dor rng <- Cli.prng_of_seed mix (Cli.cs_seed a);
+    dor ps <- score_chunk s (Cli.cs_batch_plate_ids a) (Cli.cs_n_chunks a) (Cli.cs_chunk_index a);
+    dor h <- chunk_holder_of_answer ps (sc th dm (Some rng) ps);
+    Ok [(Cli.cs_output a, h)].
+Proof. exact C06SourceCliScores.src_cli_calculate_scores_scores. Qed.
+Print Assumptions C06_model_is_source_cli_calculate_scores_scores.
+
+(* the translated wrapper on a library whose select_next_plate answers None / plate 0: -1 / 0 is written (id 0 is not "nothing") *)
+Example C06_example_cli_writes_minus_one_iff_none :
+  let lib r := Cli.mk_sn_lib (fun _ => Ok 0) (Ok 0) (fun _ => Ok 0) (fun _ => Ok 0) (fun _ _ _ _ _ => Ok r) (fun p : Z => p) in
+  let a := Cli.mk_sn_args [100] [[101]; [102]] None [103] 7 [] in
+  SrcCli.src_cli_select_next_plate Z Z Z Z (lib None) (fun s => s) a = Ok [([103], -1)] /\
+  SrcCli.src_cli_select_next_plate Z Z Z Z (lib (Some 0)) (fun s => s) a = Ok [([103], 0)].
+Proof. vm_compute. split; reflexivity. Qed.
